@@ -301,8 +301,10 @@ class Check:
     def _known(self) -> Tuple[Dict[str, Dict[str, Any]], List[Dict[str, Any]]]:
         known: Dict[str, Dict[str, Any]] = {}
         fixed: List[Dict[str, Any]] = []
-        p = VERIF / "known_findings.jsonl"
-        if p.exists():
+        files = [VERIF / "known_findings.jsonl"] + sorted((VERIF / "known_findings.d").glob("*.jsonl"))
+        for p in files:
+            if not p.exists():
+                continue
             for line in p.read_text().splitlines():
                 line = line.strip()
                 if not line or line.startswith("#"):
